@@ -159,6 +159,7 @@ Definition sample_tree : list item :=
                           MS (TPlain (tn ["gtsam"] "Pose2") false PNone false) "Identity" [];
                           MS (TPlain (tn [] "double") false PNone true) "Distance" [(TPlain (tn ["gtsam"] "Pose2") true PRef false, "a")];
                           MP (TPlain (tn ["gtsam"] "Rot2") false PNone false) "rot"; ME "Kind" ["Rigid"; "Free"] ];
+    IClassB false "Derived" ["gtsam"] "Pose2" [ MC []; MM (TPlain (tn [] "void") false PNone true) "reset" [] false ];
     IFnP (TPlain (tn ["gtsam"] "Pose3") true PRef false) (TPlain (tn [] "bool") false PNone true) "split" [(sample_type, "x")] ]%string.
 Example C01_items_nonvacuous :
   (forall i, In i sample_tree -> idepth i < depth_fuel /\ wf_item i) /\
@@ -174,6 +175,7 @@ Example C01_items_nonvacuous :
      " virtual class Pose2 { Pose2 ( ) ; Pose2 ( double x , const gtsam :: Rot2 & r ) ; double norm ( ) const ;" ++
      " void scale ( double s ) ; static gtsam :: Pose2 Identity ( ) ; static double Distance ( const gtsam :: Pose2 & a ) ;" ++
      " gtsam :: Rot2 rot ; enum Kind { Rigid , Free } ; } ;" ++
+     " class Derived : gtsam :: Pose2 { Derived ( ) ; void reset ( ) ; } ;" ++
      " pair < const gtsam :: Pose3 & , bool > split ( const gtsam :: Foo < int , std :: vector < Bar * > , const ns :: a :: K < double & > @ > & x ) ;")%string /\
   print_decls (map idecl sample_tree) = Some (print_items sample_tree).
 Proof.
